@@ -30,6 +30,10 @@ def rows_of(sec, occ):
         return [['MOLX', '3']]
     if sec == 'atoms':
         return [[str(i), 'CT', '1', 'MOL', 'C%d' % i, str(i), '0.000', '12.011'] for i in range(1, 5)]
+    if sec == 'defaults':
+        return [['1', '1', 'no', '1.0', '1.0']]
+    if sec == 'atomtypes':
+        return [['CT', '12.011', '0.000', 'A', '0.35', '0.276'], ['HC', '1.008', '0.000', 'A', '0.25', '0.125']]
     if sec == 'bonds':
         return [[str(a), str(b), '1', '0.153', '%d.0' % (1000 + occ)] for a, b in BOND_POOL[2 * occ:2 * occ + 2]]
     return [['1', '2', '3', '4', '9', '180.0', '%d.5' % (occ + 1), str(m)] for m in (2, 3)]
@@ -258,6 +262,12 @@ class C16(Check):
                         tpl[pos] = t
                         yield {'k': 'gen', 'secs': secs, 'tpl': tpl, 'empties': t}
             yield {'k': 'pathseq'}
+            # sections standing BEFORE [ moleculetype ] (a self-contained topology with its own defaults / atom types)
+            for lead in (['defaults'], ['atomtypes'], ['defaults', 'atomtypes']):
+                for tail in (['bonds'], ['bonds', 'dihedrals'], ['dihedrals', 'bonds', 'dihedrals']):
+                    for t in ('plain', 'comment', 'line'):
+                        secs2 = lead + ['moleculetype', 'atoms'] + tail
+                        yield {'k': 'gen', 'secs': secs2, 'tpl': [t] * len(secs2), 'lead': 1}
 
     def run_unit(self, unit, tier, seed):
         with Scratch() as d:
@@ -305,7 +315,8 @@ class C16(Check):
                 R.violation(sig, case, '%s: %s' % (case['file'], det))
             return
         secs, tpls = case['secs'], case['tpl']
-        prefix = ('several-empty-trailing-comments/' if case.get('empties') else
+        prefix = ('sections-before-moleculetype/' if case.get('lead') else
+                  'several-empty-trailing-comments/' if case.get('empties') else
                   'section-without-content-lines/' if case.get('empty') else
                   'comment-text-starting-with-hash/' if case.get('hash') else
                   'indented-directive/' if case.get('indent') else '')
@@ -318,14 +329,14 @@ class C16(Check):
             with open(src, 'w', encoding='utf-8') as fh:
                 fh.write(text)
             sigs, outcome, A = roundtrip(src, text, d)
-            if prefix and sigs:           # already wrong with plain lines: the main family reports it
+            if prefix and sigs and not case.get('lead'):   # already wrong with plain lines: the main family reports it
                 with open(src, 'w', encoding='utf-8') as fh:
                     fh.write(render(secs, ['plain'] * len(secs), hdr, nl))
                 if roundtrip(src, render(secs, ['plain'] * len(secs), hdr, nl), d)[0]:
                     sigs = []
             nontrivial = repeated or bool(hdr) or not nl or any(t != 'plain' for t in tpls)
             R.case(cdesc, nontrivial=nontrivial, outcome=outcome,
-                   cls='empties' if case.get('empties') else 'empty-section' if case.get('empty') else 'hash' if case.get('hash') else 'indent' if case.get('indent') else 'gen/L%d/%s' % (len(secs), 'repeated' if repeated else 'single'))
+                   cls='lead-sections' if case.get('lead') else 'empties' if case.get('empties') else 'empty-section' if case.get('empty') else 'hash' if case.get('hash') else 'indent' if case.get('indent') else 'gen/L%d/%s' % (len(secs), 'repeated' if repeated else 'single'))
             for sig, det in sigs:
                 R.violation(prefix + sig, cdesc, det)
 
@@ -369,6 +380,22 @@ def roundtrip(src, text, d):
     diffs = diff_classes(A, B)
     if diffs:
         return [('first-write/' + c, det) for c, det in diffs], outcome, A
+    # "re-reading ... yields the same content lines (token by token)": what the LIBRARY reads from the file it
+    # wrote, section by section, against the reference reading of the original
+    try:
+        reread = ItpFile(p1)
+        for sec in A.order:
+            want = [list(it[1]) for it in A.items[sec] if it[0] == 'content']
+            got = [ln.content.split() for ln in reread[sec]] if sec in reread else None
+            if got != want:
+                k = next((i for i, (x, y) in enumerate(zip(got or [], want)) if x != y), min(len(got or []), len(want)))
+                return [('re-read-by-the-library/content-tokens-differ',
+                         '[ %s ] row %d: library %r, file %r' % (sec, k, (got or [None])[k:k + 1], want[k:k + 1]))], outcome, A
+        keys = [k for k in reread if k != 'header']          # the library keeps the lines before the first section here
+        if keys != A.order:
+            return [('re-read-by-the-library/section-order-differs', (keys, A.order))], outcome, A
+    except Exception as exc:
+        return [('re-read-by-the-library/error/' + type(exc).__name__, repr(exc)[:300])], outcome, A
     try:
         it1 = ItpFile(p1)
         it1.write(p2)
